@@ -110,6 +110,9 @@ type Ctx struct {
 	// StatsDigest is filled by the glue after the parse: the caller's
 	// Stats.ChoiceAltCnt rendered canonically.
 	StatsDigest string
+	// OptsModified is set by the glue when the Parse call wrote into the option
+	// slice it was given (into its spare capacity).
+	OptsModified bool
 }
 
 // NewCtx makes a context for a plan.
@@ -119,7 +122,11 @@ func NewCtx(p *Plan) *Ctx { return &Ctx{Plan: p} }
 type CVal struct{ Vals []string }
 
 // Clone implements the generated parser's Cloner interface.
+// A nil *CVal is a value too ("nothing open yet"): its clone is itself.
 func (c *CVal) Clone() any {
+	if c == nil {
+		return (*CVal)(nil)
+	}
 	return &CVal{Vals: append([]string(nil), c.Vals...)}
 }
 
@@ -200,6 +207,9 @@ func Render(v any) string {
 	case *Node:
 		return fmt.Sprintf("N%d.%d%q", v.Site, v.N, v.Text)
 	case *CVal:
+		if v == nil {
+			return "C<nil>" // a typed nil pointer: not the same thing as an untyped nil or a missing key
+		}
 		return "C{" + strings.Join(v.Vals, ",") + "}"
 	case VVal:
 		return "V{" + strings.Join(v.Vals, ",") + "}"
@@ -371,8 +381,10 @@ func (p *Plan) StateOps(site, n int) []StateOp {
 		switch sel := int(h>>40) % 10; {
 		case sel < 2:
 			ops = append(ops, StateOp{"del", key, ""})
-		case isC && sel == 2:
+		case isC && sel == 2 && int(h>>52)%2 == 0:
 			ops = append(ops, StateOp{"nil", key, ""}) // a key holding nil is a key
+		case isC && sel == 2:
+			ops = append(ops, StateOp{"cnil", "c" + key[1:], ""}) // ... and so is one holding a nil pointer of a Cloner type
 		case isC && sel == 3 && i == 0:
 			ops = append(ops, StateOp{"vmut", "w" + key[1:], val})
 		case isC && sel == 3:
@@ -399,13 +411,15 @@ func ApplyReal(st map[string]any, ops []StateOp) {
 		case "cset":
 			st[op.Key] = &CVal{Vals: []string{op.Val}}
 		case "cmut":
-			if c, ok := st[op.Key].(*CVal); ok {
+			if c, ok := st[op.Key].(*CVal); ok && c != nil {
 				c.Vals = append(c.Vals, op.Val) // in place, on purpose
 			} else {
 				st[op.Key] = &CVal{Vals: []string{op.Val}}
 			}
 		case "nil":
 			st[op.Key] = nil
+		case "cnil":
+			st[op.Key] = (*CVal)(nil)
 		case "mmut":
 			if m, ok := st[op.Key].(MVal); ok && m["e"] != nil {
 				*m["e"] += "+" + op.Val // through the shared element, on purpose
@@ -458,7 +472,7 @@ func misbehave(st map[string]any, site, n int) {
 	}
 	sort.Strings(keys)
 	for _, k := range keys {
-		if c, ok := st[k].(*CVal); ok {
+		if c, ok := st[k].(*CVal); ok && c != nil {
 			c.Vals = append(c.Vals, "BAD")
 		}
 		if v, ok := st[k].(VVal); ok && len(v.Vals) > 0 {
@@ -524,6 +538,9 @@ func State(gs map[string]any, site, line, col, off int, text []byte, st map[stri
 // InitVal decodes an initial state value given to the InitState option:
 // "C:a,b" is a Cloner value, anything else a string.
 func InitVal(s string) any {
+	if s == "CNIL" {
+		return (*CVal)(nil)
+	}
 	if strings.HasPrefix(s, "C:") {
 		return &CVal{Vals: strings.Split(s[2:], ",")}
 	}
